@@ -104,6 +104,7 @@ type job struct {
 	u  *Unit
 	ob *Oblig
 	z3file, cvcfile string
+	iz3, icvc string
 }
 
 func runCheck(eng *Engine, start time.Time) int {
@@ -144,15 +145,24 @@ func runCheck(eng *Engine, start time.Time) int {
 				ob.Solver = "trivial"
 				continue
 			}
-			as := u.Assumes[:ob.NAssume]
-			s1, _ := BuildScript(as, ob.Goal, nil, false)
-			s2, _ := BuildScript(as, ob.Goal, nil, true)
+			as, goal, ias, igoal := prepareVC(u.Assumes[:ob.NAssume], ob.Goal)
+			s1, _ := BuildScript(as, goal, nil, false)
+			s2, _ := BuildScript(as, goal, nil, true)
 			f1 := obligFile(workdir, ob.Name)
 			f2 := strings.TrimSuffix(f1, ".smt2") + ".cvc5.smt2"
 			os.WriteFile(f1, []byte(s1), 0644)
 			os.WriteFile(f2, []byte(s2), 0644)
 			ob.File = f1
-			jobs = append(jobs, job{u, ob, f1, f2})
+			j := job{u: u, ob: ob, z3file: f1, cvcfile: f2}
+			if igoal != nil {
+				i1, _ := BuildScript(ias, igoal, nil, false)
+				i2, _ := BuildScript(ias, igoal, nil, true)
+				j.iz3 = strings.TrimSuffix(f1, ".smt2") + ".inst.smt2"
+				j.icvc = strings.TrimSuffix(f1, ".smt2") + ".inst.cvc5.smt2"
+				os.WriteFile(j.iz3, []byte(i1), 0644)
+				os.WriteFile(j.icvc, []byte(i2), 0644)
+			}
+			jobs = append(jobs, j)
 		}
 	}
 	if *flagV {
@@ -168,7 +178,23 @@ func runCheck(eng *Engine, start time.Time) int {
 		go func(j job) {
 			defer wg.Done()
 			defer func() { <-sem }()
-			r := raceFiles(j.z3file, j.cvcfile, timeout, seed, *flagTier == "thorough")
+			var r SolveResult
+			done := false
+			if j.iz3 != "" {
+				// quantifier-free instantiated variant first; only "unsat" is conclusive for it
+				it := timeout / 2
+				if it < 5 {
+					it = 5
+				}
+				r = raceFiles(j.iz3, j.icvc, it, seed, false)
+				if r.Status == "unsat" {
+					r.Solver += "+inst"
+					done = true
+				}
+			}
+			if !done {
+				r = raceFiles(j.z3file, j.cvcfile, timeout, seed, *flagTier == "thorough")
+			}
 			j.ob.Status = r.Status
 			j.ob.Solver = r.Solver
 			j.ob.Time = r.Time
